@@ -264,7 +264,10 @@ CLAIMED = {
          "ending at the root and no stream is its own transitive dependency (tree_rooted, no_cycle; representation invariant "
          "TreeInv preserved by OpenStream, CloseStream, AdjustStream incl. self-, circular and exclusive dependencies, "
          "evictions, Pop's re-sorting; depth bound by pigeonhole). All three models are tied to the real schedulers by exact "
-         "differentials; for the priority scheduler the whole final structure incl. sibling order is compared"),
+         "differentials; for the priority scheduler the whole final structure incl. sibling order is compared. The scheduler-"
+         "independent TRACE specification that judges the real schedulers' answers (oracle `schedtrace`) is proved to accept every "
+         "run of the round-robin model and to track its state (trace_accepts_rr, trace_tracks_rr in C20_Trace.lean): the oracle is "
+         "no stricter than the proved scheduler"),
    note=("PARTIAL: conservation / window theorems are proved for round robin (and per-step for Consume); for the priority scheduler "
          "they are decided by the differential, the tree clause by theorem. sort.Sort is modelled as insertion sort (<= 12 siblings). "
          "Found and fixed D7. Trusted: Lean kernel + standard axioms; harness"),
